@@ -74,7 +74,7 @@ def make_case(spec):
     rnd = random.Random(spec['seed'])
     return geo.build(spec['cell'], spec['pattern'], spec['copies'], rnd, noise=spec.get('noise', 0.0), decoys=spec.get('decoys', 0),
                      mirror_decoys=spec.get('mirror', 0), near_miss=spec.get('near_miss', 0), atol=spec.get('atol', 0.05),
-                     straddle=spec.get('straddle', True))
+                     straddle=spec.get('straddle', True), bent=spec.get('bent', 0))
 
 
 def check_case(spec):
@@ -121,6 +121,10 @@ def specs(tier, seed):
                                     rng=s))
     for off in ([1.5, 1.5, 1.5], [15.5, 16.0, 16.5], [8.0, 15.0, 3.0]):
         out.append(dict(special='boundary2', offset=off, seed=0))
+    for ci, cell in enumerate(cells):
+        for s in range(2 if tier == 'quick' else 8):
+            out.append(dict(cell=cell, pattern='nearlinear3', copies=2, seed=seed * 1000 + 300 + s, decoys=2, bent=2, rng=s))
+            out.append(dict(cell=cell, pattern='nearlinear3', copies=1, seed=seed * 1000 + 400 + s, decoys=1, bent=1, rng=s, hints=dict(axisp1_idx=0, axisp2_idx=2, opoint_idx=1)))
     # hint triples for small patterns
     for pat in ['pair', 'planar3', 'chiral4']:
         n = len(geo.PATTERNS[pat][0])
